@@ -182,6 +182,12 @@ func vRunCase(t *testing.T, c vCase) (msg string) {
 		case "pow":
 			s.Pow(u)
 			want.Exp(a, b, vN)
+		case "pow-self":
+			s.Pow(s)
+			want.Exp(a, a, vN)
+		case "set-self":
+			s.Set(s)
+			want.Set(a)
 		case "setuint64":
 			s.SetUInt64(c.U)
 			want.SetUint64(c.U)
